@@ -297,6 +297,69 @@ theorem adaptive_ascends (o : OptSpec) (hm : o.momentum = 0) (hw : o.wd = 0) (lr
     the optimizer — not even by weight decay or momentum -/
 theorem sgdSlot_none (o : OptSpec) (lr t : Rat) (b : Option Rat) : sgdSlot o lr none t b = (t, b) := rfl
 
+/-! ## the accumulated gradient is the gradient of the weighted sum -/
+
+theorem zipWith_oadd_map {α : Type} (reg : List α) (a b : α → Option Rat) :
+    vadd (reg.map a) (reg.map b) = reg.map (fun x => oadd (a x) (b x)) := by
+  induction reg with
+  | nil => rfl
+  | cons r rs ih => simp only [vadd] at ih ⊢; simp [ih]
+
+theorem foldl_vadd_map {α β : Type} (reg : List α) (cs : List β) (g : β → α → Option Rat) :
+    ∀ a : α → Option Rat,
+    (cs.map (fun c => reg.map (g c))).foldl vadd (reg.map a)
+      = reg.map (fun x => (cs.map (fun c => g c x)).foldl oadd (a x)) := by
+  induction cs with
+  | nil => intro a; rfl
+  | cons c cs ih =>
+    intro a
+    simp only [List.map_cons, List.foldl_cons]
+    rw [zipWith_oadd_map, ih]
+
+theorem foldl_oadd_getD (l : List (Option Rat)) : ∀ a : Option Rat,
+    (l.foldl oadd a).getD 0 = a.getD 0 + (l.map (·.getD 0)).sum := by
+  induction l with
+  | nil => intro a; simp
+  | cons x l ih =>
+    intro a
+    simp only [List.foldl_cons, List.map_cons, List.sum_cons]
+    rw [ih]
+    cases a <;> cases x <;> simp [oadd] <;> ring
+
+/-- **what the optimizer receives is the gradient of Σ weightᵢ·lossᵢ.**  In the executable instance
+    the accumulated `.grad` of every registered tensor `x` (0 where no gradient path exists) equals the
+    derivative, with respect to `x`, of the expression `zeros(1) + w₁·l₁ + w₂·l₂ + …` that
+    `training_step` returns. -/
+theorem totalGrad_is_grad_of_weighted_sum (s : Spec) (cs : List CondSpec) (n : Nat) (it : Option Nat) (θ : List Rat) :
+    (totalGrad (registry s).length (cs.map (CondSpec.toCond s)) (cs.map (fun _ => n)) it θ).map (·.getD 0)
+      = (registry s).map (fun x =>
+          (PExp.weightedSum (cs.map (fun c => (c.weight, c.lossAt n)))).deriv
+            ⟨registry s, s.env0, θ, itVal it⟩ x) := by
+  simp only [totalGrad]
+  rw [List.zipWith_map_left, zipWith_map_const]
+  have h0 : List.replicate (registry s).length (none : Option Rat) = (registry s).map (fun _ => none) := by
+    simp
+  rw [h0]
+  simp only [CondSpec.toCond, smul, List.map_map]
+  have := foldl_vadd_map (registry s) cs
+    (fun c x => Option.map (fun v => c.weight * v)
+      (if x ∈ (c.lossAt n).ids then some ((c.lossAt n).deriv ⟨registry s, s.env0, θ, itVal it⟩ x) else none))
+    (fun _ => none)
+  simp only [Function.comp_def] at this ⊢
+  rw [this, List.map_map]
+  apply List.map_congr_left
+  intro x _
+  simp only [Function.comp_def]
+  rw [foldl_oadd_getD, (PExp.weightedSum_eval_deriv _ x _).2]
+  simp only [List.map_map, Option.getD_none, zero_add]
+  congr 1
+  apply List.map_congr_left
+  intro c _
+  simp only [Function.comp_def]
+  by_cases hx : x ∈ (c.lossAt n).ids
+  · simp [hx]
+  · simp [hx, PExp.deriv_eq_zero_of_not_mem _ x _ hx]
+
 /-! ## non-vacuity: a concrete set-up on which all hypotheses hold and training really moves things -/
 
 /-- tensors 0,1: a model `u(x) = p0 + p1·x` shared by two training conditions; tensor 2: an adaptive
